@@ -236,6 +236,26 @@ def side_effect_cases(ctx, rng):
             ctx.spec_failures.append(("C13:inference-modified-state", {"state": state, "acts": acts, "weights": wq, "changed": diff[:6], "inplace_step": inplace}))
         if outs[0] != outs[1] or outs[1] != outs[2]:
             ctx.spec_failures.append(("C13:repeated-evaluation-differs", {"state": state, "acts": acts, "weights": wq, "inplace_step": inplace}))
+        # quantize_weight over qtypes / axes / group sizes (also the group size that makes one group per axis index) and ranks
+        shp = rng.choice([[8, 16], [32, 64], [16, 4, 8], [4, 2, 4, 8], [16]])
+        wx = torch.randn(shp).to(dt)
+        hx = tensor_hash(wx)
+        qn = rng.choice(["qint2", "qint4", "qint8", "qfloat8"])
+        ax = rng.choice([0, -1])
+        per_axis = wx.numel() // wx.shape[ax]
+        gsz = rng.choice([None, per_axis] + [g_ for g_ in (2, 4, 8, 16, 32) if per_axis % g_ == 0]) if qn in ("qint2", "qint4") else None
+        try:
+            r1 = q.quantize_weight(wx, q.qtypes[qn], ax, gsz)
+            d1 = bits_of(r1.dequantize())
+            r2 = q.quantize_weight(wx, q.qtypes[qn], ax, gsz)
+            ctx.evaluations += 1
+            ctx.count(f"library:quantize_weight:{qn}:axis={ax}:group={'none' if gsz is None else ('whole' if gsz == per_axis else 'part')}")
+            if tensor_hash(wx) != hx:
+                ctx.spec_failures.append(("C13:library-call-modified-its-input", {"call": "quantize_weight", "qtype": qn, "axis": ax, "group_size": gsz, "shape": shp}))
+            elif bits_of(r2.dequantize()) != d1:
+                ctx.spec_failures.append(("C13:repeated-evaluation-differs", {"call": "quantize_weight", "qtype": qn, "axis": ax, "group_size": gsz, "shape": shp}))
+        except ValueError:
+            pass
         # library entry points do not modify what they read
         w = torch.randn(4, 8).to(dt)
         hw = tensor_hash(w)
